@@ -135,7 +135,7 @@ def do_nuclides(spec, rec, rng):
             if n.name != n.element.symbol or n.getMcnpId() != "%d000" % n.z:
                 rec.violation("encoding/natural", "%s: natural nuclide name/MCNP id (%r) inconsistent with element %s" % (n.name, n.getMcnpId(), n.element.symbol), w)
         # element membership
-        if getattr(n, "element", None) is not None and not isinstance(n, (nb.DummyNuclideBase, nb.LumpNuclideBase)):
+        if getattr(n, "element", None) is not None:  # includes the dummy / lumped nuclides of the pseudo-elements DP and LP
             rec.hit("nuclide.element")
             if n.element.z != n.z:
                 rec.violation("element/z-mismatch", "%s: element z %d != nuclide z %d" % (n.name, n.element.z, n.z), w)
